@@ -446,6 +446,39 @@ def build(run):
         return proved("exec", vcs=n, sample=f"{n} representatives: pickle and eval(repr) round trips give equal objects")
     run.add("roundtrip/pickle-and-repr", roundtrip, kind="values")
 
+    # literals: the printed text of a real / complex literal must denote the same double (shortest round-trip text or more digits)
+    def literal_roundtrip():
+        import math
+        import random
+        import struct
+        t = terms()
+        f = t["f"]
+        rnd = random.Random(1313)
+        vals = [0.1 + 0.2, 0.3, 1 / 3, 2 / 3, math.pi, math.sqrt(2), 1.1 * 1.1, 5e-324, 2.2250738585072014e-308, 1.7976931348623157e308, 1e16 + 2, 123456789.12345678,
+                0.1, 1e22, 1e23, 9007199254740993.0, -0.30000000000000004, 1 - 2 ** -53, 1 + 2 ** -52, 4.35, 0.5000000000000001]
+        while len(vals) < 260:
+            x = struct.unpack("<d", struct.pack("<Q", rnd.getrandbits(64)))[0]
+            if x == x and abs(x) != float("inf") and x != 0:
+                vals.append(x)
+        n = 0
+        for x in vals:
+            for lit in (C.FloatValue(x), C.ComplexValue(complex(x, 1.0)), C.ComplexValue(complex(2.0, x))):
+                for o in (lit, lit * f, as_vector([lit, f])):
+                    n += 1
+                    try:
+                        e = eval(repr(o), dict(ns))
+                    except Exception as ex:  # noqa: BLE001
+                        return violated(f"eval(repr(x)) failed for a literal with value {x!r}: {type(ex).__name__}: {ex}", replay={"repr": repr(o)}, reproduced=True)
+                    if not (e == o) or not (o == e):
+                        return violated(f"eval(repr(x)) != x for the literal value {x!r} (printed as {lit!r}): the printed text denotes another number",
+                                        replay={"value": repr(x), "repr": repr(o), "roundtrip": repr(e)}, reproduced=True, backend="exec")
+                    p_ = pickle.loads(pickle.dumps(o))
+                    if not (p_ == o):
+                        return violated(f"pickle round trip changes the literal value {x!r}", replay={"value": repr(x)}, reproduced=True, backend="exec")
+        return bounded_ok(n, f"{len(vals)} doubles (values needing 16-17 significant digits, subnormal, extreme, 239 random bit patterns) as real and complex literals, "
+                             "alone and inside expressions", sample="eval(repr(.)) and pickle reproduce every literal exactly")
+    run.add("roundtrip/float-and-complex-literals", literal_roundtrip, kind="bounded")
+
     def canary():
         a, b = C.IntValue(3), C.IntValue(4)
         if a == b:
